@@ -23,6 +23,27 @@ Translated (class SpaceChargeKick of cheetah/accelerator/space_charge_kick.py):
   _E_plus_vB_field        over Q, per sample: the three returned grids as functions of a grid index (i, j, k), of the
                           abstract potential grid, of cell_size and of relativistic_gamma  ->  gen_E_plus_vB_field
 
+  _deposit_charge_on_grid over Q / Z, per sample and PER PARTICLE, the 8 corners and 3 axes enumerated from the literal `offsets` table:
+                          gen_deposit_terms     the 8 entries (grid index, valid, value) handed to charge.index_put_(accumulate=True)
+                          gen_deposit_weights   cell_weights of the 8 corners
+                          gen_deposit_scale     inv_cell_volume, the factor of the returned grid
+  _compute_forces         the same reading: gen_gather_terms (the 8 entries (x, y, tau) summed by torch.scatter_add into this
+                          particle's force; the three grids returned by _E_plus_vB_field are abstract functions grad_0..2 of a grid
+                          index), gen_gather_weights
+    Reading of the cloud-in-cell code: a tensor is a function (corner c, axis a) -> term of kind Q, Z or bool;
+    xp_coordinates[..., [0, 2, 4]] are the leaves xp_0, xp_2, xp_4; torch.floor(..).type(torch.int) is Qfloor; an int tensor in a
+    rational expression is inject_Z; `T + offsets` adds the literal; torch.where(offsets == 0, a, b) selects by the literal;
+    .prod(dim=-1) is the product over the 3 axes (once per function: the cell weights); `>=` / `<` / `&` are Z.leb / Z.ltb / &&;
+    torch.clamp(i, min, max) is Z.min (Z.max i min) max; torch.where(mask, v, 0) is if-then-else; G[(sample, i, j, k)] is G (i, j, k).
+    Entry ORDER of the flattened (particle, corner) axis is part of the reading: `.flatten(start_dim=-2)` of a (.., particles, 8)
+    tensor puts particle p, corner c at entry 8 p + c, so a per-particle tensor must be expanded with EXACTLY
+    `.repeat_interleave(repeats=8, dim=-1)`; anything else (e.g. `.repeat(1, 8)`) is rejected.  Declared frames, accepted by exact
+    form only: the sample index `torch.arange(<T>.shape[0]).repeat(8 * beam.particles.shape[-2], 1).T` (constant per sample), the
+    zero arrays, `charge.index_put_((sample[m], i_x[m], i_y[m], i_tau[m]), values[m], accumulate=True)` with one mask m (= list sum
+    per grid point: hit_sum of Gen/ScGenBase.v), the particle index `torch.arange(beam.num_particles).repeat_interleave(8)
+    .unsqueeze(0).unsqueeze(-1).expand(beam.particles.shape[0], 8 * beam.particles.shape[-2], 3)` and
+    `torch.scatter_add(<zeros>, dim=1, index=<particle index>, src=torch.stack([vx, vy, vz], dim=-1))` (= sum of the particle's 8 entries).
+
 Reading (trusted; the table of this translator):
   * values are tracked by DATA FLOW, not by name: a local name is bound to the (inlined) Coq term of its value, so local
     renames and reformatting do not change the output; the roles (grid_dimensions, cell_size, the kicked coordinates) are
@@ -969,8 +990,8 @@ class Translator:
             parts.append(t)
             info += i
         head = ("(** GENERATED by harness/translate_sc.py from cheetah/accelerator/space_charge_kick.py -- do not edit.\n"
-                "    Transcription of SpaceChargeKick._integrated_potential (over R), of the kick step of SpaceChargeKick.track and of\n"
-                "    SpaceChargeKick._E_plus_vB_field (over Q, per sample / per particle / per grid point).  The reading is documented in\n"
+                "    Transcription of SpaceChargeKick._integrated_potential and G_values (over R), of the kick step of SpaceChargeKick.track, of\n"
+                "    _E_plus_vB_field, _deposit_charge_on_grid and _compute_forces (over Q, per sample / per particle / per grid point).  The reading is documented in\n"
                 "    the translator's docstring; Gen/ScGenEquiv.v proves each definition equal to the model of SpaceCharge/*.v. *)\n"
                 "From Coq Require Import Reals QArith Qround Bool Arith ZArith List.\nImport ListNotations.\n\n")
         r_part = "Open Scope R_scope.\n\n" + parts[0] + "\n" + parts[1] + "\nClose Scope R_scope.\nOpen Scope Q_scope.\n\n"
